@@ -12,6 +12,9 @@ def dispatch(prop, tier, seed):
     if prop in ('C05', 'C06', 'C14'):
         from . import client_now
         return client_now.run_check(prop, tier, seed)
+    if prop in ('C02', 'C03', 'C04', 'C11', 'C18'):
+        from . import seqlock_checks
+        return getattr(seqlock_checks, 'check_' + prop.lower())(tier, seed)
     raise SystemExit('no check for ' + prop)
 
 
